@@ -51,9 +51,23 @@ func factsOf(b []byte) csFacts {
 var foreignPara = "Injected: yes\nPackage: evil\n"
 
 func execClearsign(vec J, out *Writer) {
+	if vec["k"].(string) == "cs_seq" {
+		// one process, one document, a sequence of keyrings: what an earlier read accepted must not
+		// influence a later one.  Every read is an ordinary "cs" observation; `in` keeps the whole
+		// sequence so that a replay runs it again from the start.
+		for i, kr := range L(vec["rings"]) {
+			one := J{"k": "cs", "doc": vec["doc"], "key": vec["key"], "keyring": kr, "mut": vec["mut"]}
+			execClearsignOne(one, out, J{"k": "cs_seq", "doc": vec["doc"], "key": vec["key"], "rings": vec["rings"], "mut": vec["mut"], "step": i + 1})
+		}
+		return
+	}
 	if vec["k"].(string) != "cs" {
 		die("clearsign: unknown vector kind %v", vec["k"])
 	}
+	execClearsignOne(vec, out, vec)
+}
+
+func execClearsignOne(vec J, out *Writer, echo J) {
 	text := []byte(S(vec["doc"]))
 	signed := text
 	signedBy := "none"
@@ -167,7 +181,7 @@ func execClearsign(vec J, out *Writer) {
 		}
 		return false
 	}
-	out.Put(J{"ev": "cs", "in": vec, "signed_by": signedBy, "keyring_nil": ring == nil, "keyring": ringNames,
+	out.Put(J{"ev": "cs", "in": echo, "signed_by": signedBy, "keyring_nil": ring == nil, "keyring": ringNames,
 		"armor_start": bytes.HasPrefix(b, []byte("-----BEGIN PGP ")),
 		"decodes":     now.decodes, "canon_same": now.decodes && orig.decodes && bytes.Equal(now.canon, orig.canon),
 		"sigpkt_same": now.decodes && orig.decodes && bytes.Equal(now.sigpkt, orig.sigpkt) && len(now.sigpkt) > 0,
